@@ -1,0 +1,42 @@
+//go:build verif
+
+// Machine-checked contracts for package l4winbox (comment-only; read by /verif/gvc).
+
+package l4winbox
+
+// The matcher never panics and allocates at most a few hundred bytes whatever the client sends (C04).
+//@ func (m *MatchWinbox) Match(cx *layer4.Connection) (matched bool, err error)
+//@ requires wfm(cx)
+//@ requires[inv] m.usernameRegexp != nil
+//@ safety C04
+//@ implements[C06] (m github.com/mholt/caddy-l4/layer4.ConnMatcher) Match
+//@ ensures[C06] err == nil || err == layer4.ErrConsumedAllPrefetchedBytes
+//@ ensures[C06] err != nil ==> !matched
+
+// FromBytes splits a message of at most 4096 bytes into chunks of 2+255 bytes. Every chunk it hands
+// to FromChunks is non-nil (what FromChunks relies on).
+//@ func (msg *MessageAuth) FromBytes(src []byte) (err error)
+//@ requires msg != nil && len(src) <= 4096
+//@ safety C04
+//@ assigns[C06] msg.Username, msg.PublicKeyBytes, msg.PublicKeyParity
+//@ invariant 0 <= i && i <= q && len(chunks) == i && q <= 16
+//@ invariant forall k int :: 0 <= k && k < len(chunks) ==> chunks[k] != nil
+
+//@ func (msg *MessageAuth) FromChunks(chunks []*MessageChunk) (err error)
+//@ requires msg != nil && len(chunks) <= 16
+//@ requires forall k int :: 0 <= k && k < len(chunks) ==> chunks[k] != nil
+//@ safety C04
+//@ assigns[C06] msg.Username, msg.PublicKeyBytes, msg.PublicKeyParity
+//@ loop 0 invariant 0 <= l && l <= 255 * (rangeindex + 1)
+//@ loop 1 invariant 0 <= len(src) && len(src) <= 255 * (rangeindex + 1)
+
+//@ func (msg *MessageAuth) GetUsername() (name string)
+//@ requires msg != nil
+//@ safety C04
+//@ assigns nothing
+
+//@ func (msg *MessageAuth) GetRoMON() (romon bool)
+//@ requires msg != nil
+//@ safety C04
+//@ assigns nothing
+//@ ensures[C04] romon ==> len(msg.Username) >= 2
